@@ -1,36 +1,50 @@
 // Package ethsynth produces honest synthetic data for the Ethereum-family light clients and deposit
 // proofs of polynetwork/poly, plus the plumbing to feed it through the REAL native contracts.
 // It never copies poly logic: rules are transcribed from the public specifications
-// (EIP-100/649/1234/2384/3554/4345, EIP-1559, yellow-paper RLP, Parlia / Congress consensus docs).
+// (EIP-100/649/1234/2384/3554/4345, EIP-1559, yellow-paper RLP, Parlia / Congress / Clique rules).
+// Used by checks C23, C27, C28, C29; meant to be reused by the replay/registry checks (C20-C22).
 //
 // API summary (import path verifharness/synth/ethsynth)
 //
-//   env.go      Env = nat.Env + governance validators.
-//               NewEnv(rng, netID) *Env
-//               (*Env).RegisterSideChain(chainID, router, name, blocksToWait, ccmc, extraInfo) error
-//                        registerSideChain + approveRegisterSideChain by every validator (real contracts)
-//               (*Env).SyncGenesis(chainID, genesisBytes) *nat.CallRecord      operator-signed
-//               (*Env).SyncHeaders(chainID, headers...) *nat.CallRecord        header_sync.syncBlockHeader
-//               (*Env).Import(chainID, height, proof, extra) *nat.CallRecord   cross_chain_manager.ImportOuterTransfer
-//               (*Env).Stored(chainID) map[Hash]*StoredHeader   every HEADER_INDEX entry (raw storage, decoded)
-//               (*Env).Canon(chainID) (head uint64, index map[uint64]Hash, ok bool)  CURRENT_HEADER_HEIGHT / MAIN_CHAIN
-//               (*Env).HSDigest(chainID) string     digest of all header-sync storage
-//               CheckChainInvariants(stored, head, index, root) []string   C27/C29 structural invariants
+//	env.go      Env = nat.Env + governance validators (creating one costs ~0.1 s: host many side chains in one).
+//	            NewEnv(rng, netID) *Env; (*Env).Use() re-selects the Env's network id in poly's global config
+//	            (*Env).RegisterSideChain(chainID, router, name, blocksToWait, ccmc, extraInfo) error
+//	                     registerSideChain + approveRegisterSideChain by the validators (real side_chain_manager)
+//	            (*Env).SyncGenesis(chainID, genesisBytes) *nat.CallRecord      header_sync.syncGenesisHeader, operator-signed
+//	            (*Env).SyncHeaders(chainID, headers...) *nat.CallRecord        header_sync.syncBlockHeader (one tx)
+//	            (*Env).Import(chainID, height, proof, extra) *nat.CallRecord   cross_chain_manager.ImportOuterTransfer
+//	            (*Env).ImportWith(..., headerOrCrossChainMsg)                  same with the extra payload
+//	            (*Env).Stored(chainID) map[Hash]*StoredHeader   every HEADER_INDEX entry (raw storage, decoded; eth + PoSA routers)
+//	            (*Env).Canon(chainID) (head, index map[height]Hash, ok)       CURRENT_HEADER_HEIGHT / MAIN_CHAIN
+//	            (*Env).HSDigest() / HSDigestChain(chainID)                    digests of header-sync storage
+//	            CheckChainInvariants(stored, head, index, rootHash) []string  structural invariants of C27 / C29
 //
-//   spec.go     independent transcriptions: SpecDifficulty(delay, time, parent...), Forks / ForksFor(netID),
-//               (Forks).Delay(number), SpecBaseFee, SpecGasLimitOK, RLP encoder (RlpBytes, RlpUint, RlpBig, RlpList),
-//               HeaderRLP / SpecHash (block hash) / SpecSealHashPoW (ethash seal hash), Keccak.
+//	spec.go     independent transcriptions: SpecDifficulty(delay, time, parentTime, parentDiff, parentNumber, uncles),
+//	            Forks{London, ArrowGlacier} / MainnetForks / RopstenForks / ForksFor(netID), (Forks).Delay(number),
+//	            SpecBaseFee, SpecGasLimitOK, RLP encoder (RlpBytes, RlpUint, RlpBig, RlpList), Keccak.
 //
-//   ethchain.go Ethereum PoW headers for the eth router (use with eth.VerifSealBypass = true):
-//               H = poly's eth.Header; NewRoot(rng, number, opts), Child(rng, forks, parent, ChildOpt) *H,
-//               JSON(h) []byte (the format SyncBlockHeader expects), Valid(forks, parent, child) []string (spec oracle).
+//	ethchain.go Hdr = library-independent header (RLP, Hash, PoWSealHash, JSON, ToPoly, ToGeth, Copy);
+//	            NewRoot(rng, forks, number, difficulty, gasLimit) trust root; Child(rng, forks, parent, ChildOpt) conforming
+//	            child for the eth router (use with eth.VerifSealBypass = true); Violations(forks, parent, child) spec oracle.
 //
-//   posa.go     Parlia / Congress style chains: Flavor table (Bsc, Bytom, Heco, Hsc, Pixie), Validator keys
-//               (secp256k1), (*Flavor).SealHash, Seal, HeaderJSON, GenesisJSON, ExtraInfoJSON; reference model
-//               PoSAModel (validator set in effect, recent-signer window, in-turn difficulty) for building honest
-//               children and judging arbitrary headers.
+//	posa.go     Flavor table: Bsc, Bytom (Parlia), Heco, Hsc, Pixie (Congress), Msc (Clique, fixed signer set);
+//	            Validator keys (secp256k1), (*Flavor).SealHash / Seal / Sealer / GenesisJSON / ExtraInfoJSON[Epoch];
+//	            PoSAModel: InEffect(parent), RecentlySealed, Judge(parent, header) (reasons from property C29, and chain
+//	            rules outside it), Add, Honest(rng, parent, keys, HonestOpt); PoSAChain: NewPoSAChain(rng, flavor,
+//	            sealChainID, v0, v1, maxV, aroundHeight) (simulator + genesis document), Next(rng, parent, HonestOpt), NextSet.
 //
-//   state.go    account + storage tries with go-ethereum v1.9.15 trie: NewState(rng, ccmc, nAccounts),
-//               (*State).SetSlot(slot, msg), Root(), Proof(addr, slot) *Proof (JSON shape of ETHProof / bsc Proof),
-//               StorageValueFor(msg), DepositMessage(rng, ...) ([]byte, *MakeTxParam).
+//	state.go    account + storage tries with go-ethereum v1.9.15 trie: NewState(rng, contract, nOthers), Clone,
+//	            Commit(contract, slot, message) (stores keccak256(message)), Root(), Prove(addr, slot) *Proof (JSON shape
+//	            of eth_getProof = poly's ETHProof and its bsc/heco/... copies; absence proofs for missing accounts/slots),
+//	            TxParam / RandTxParam / Serialize (poly's MakeTxParam wire format).
+//
+// Typical use (deposit on a BSC-like chain):
+//
+//	e := ethsynth.NewEnv(rng, 3)
+//	c, genesis := ethsynth.NewPoSAChain(rng, ethsynth.Bsc, 56, 3, 3, 3, 6000000)
+//	e.RegisterSideChain(id, ethsynth.Bsc.Router, "bsc", 1, ccmc[:], ethsynth.Bsc.ExtraInfoJSONEpoch(56, c.Epoch))
+//	e.SyncGenesis(id, genesis)
+//	st := ethsynth.NewState(rng, ccmc, 8); msg := ethsynth.RandTxParam(rng, toChain).Serialize(); st.Commit(ccmc, slot, msg)
+//	root := st.Root(); h := c.Next(rng, c.M.Root, ethsynth.HonestOpt{Root: &root}); e.SyncHeaders(id, h.JSON())
+//	e.Import(id, uint32(h.Number), st.Prove(ccmc, slot).JSON(), msg)
 package ethsynth
